@@ -28,11 +28,11 @@ using namespace muscle;
 class Obj : public RefCountable {
 public:
    Obj() : state(0), serial(0) {}
-   Obj & operator=(const Obj & rhs) {state = rhs.state; serial = rhs.serial; return *this;}
-   int state; int serial;
+   Obj & operator=(const Obj & rhs) {state = rhs.state; serial = rhs.serial; next = rhs.next; return *this;}
+   int state; int serial; Ref<Obj> next;     // next: a member Ref, so that objects form chains (recycling one may recycle the next)
 };
 DECLARE_REFTYPES(Obj);
-typedef ObjectPool<Obj, 112> Pool2;  typedef ObjectPool<Obj, 152> Pool3;
+typedef ObjectPool<Obj, 128> Pool2;  typedef ObjectPool<Obj, 176> Pool3;
 #ifndef VERIF_NO_PRIVATE
 static_assert(Pool2::NUM_OBJECTS_PER_SLAB == 2, "slab size for 2 objects"); static_assert(Pool3::NUM_OBJECTS_PER_SLAB == 3, "slab size for 3 objects");
 #endif
@@ -125,7 +125,7 @@ static void ObserveResume(vs::LThread * me, int kind, const void * obj, int)
 }
 struct Mailbox {Mutex m; ObjRef slot;};
 static int g_serial = 0;
-static void Worker(TracedPool * pool, Mailbox * mb, unsigned seed, int nOps)
+static void Worker(TracedPool * pool, Mailbox * mb, unsigned seed, int nOps, bool chains)
 {
    vs::ThreadBegin();
    {
@@ -133,7 +133,7 @@ static void Worker(TracedPool * pool, Mailbox * mb, unsigned seed, int nOps)
       #define CHECK(r) do {if (((r)())&&((r)()->state != 42)) Bad("a referenced object was recycled (released early)");} while(0)
       for (int k=0; k<nOps; k++) {
          const int a = (int)(gen()%3), b = (int)(gen()%3);
-         switch(gen()%10) {
+         switch(gen()%(chains ? 13 : 10)) {
             case 0: {Obj * o = pool->ObtainObject(); if (o) {if (o->state != 0) Bad("pool handed out an object that is not in the default state"); o->state = 42; o->serial = ++g_serial; TLine("Obtain", ObjId(o)); slots[a] = ObjRef(o);}} break;
             case 1: CHECK(slots[b]); slots[a] = slots[b]; break;
             case 2: slots[a].Reset(); break;
@@ -144,9 +144,13 @@ static void Worker(TracedPool * pool, Mailbox * mb, unsigned seed, int nOps)
             case 7: {ObjRef moved(std::move(slots[a])); CHECK(moved); slots[b] = std::move(moved);} break;
             case 8: if (slots[a]()) {ObjRef alias; alias.SetRef(slots[a](), false); alias.SetRef(slots[a](), true); CHECK(alias);} break;                    // a non-counting alias starts counting (same item): +1, and -1 when it dies
             case 9: if (slots[a]()) {ObjRef alias(slots[a]); alias.SetRef(slots[a](), false); CHECK(alias);} break;                             // a counting alias stops counting (same item): -1 now, nothing when it dies
+            // chains (single-threaded runs only: a Ref is not itself thread-safe)
+            case 10: if (slots[a]()) {bool cyc = false; for (Obj * p = slots[b](); p; p = p->next()) if (p == slots[a]()) {cyc = true; break;} if (!cyc) slots[a]()->next = slots[b];} break;   // obj.next := slot
+            case 11: case 12: if (slots[a]()) slots[a] = slots[a]()->next; break;                                                                                                   // pop the head: slot := slot->next
          }
-         for (int i=0; i<3; i++) CHECK(slots[i]);
+         for (int i=0; i<3; i++) {CHECK(slots[i]); if (chains) {int n = 0; for (Obj * p = slots[i](); (p)&&(n < 100); p = p->next(), n++) if (p->state != 42) {Bad("an object that is still referenced by another object's member reference was recycled (released early)"); break;}}}
       }
+      if (chains) {DECLARE_MUTEXGUARD(mb->m); mb->slot.Reset();}    // the mailbox may head a chain: empty it here, where every count operation of the cascade is observed
    }
    vs::ThreadEnd();
 }
@@ -162,7 +166,7 @@ static int Explore(uint32 iters, int nt, int nops, uint32 seed0, const char * ou
 #endif
       vs::Reset(seed, vs::RANDOM); vs::S.onResume = ObserveResume; vs::S.onEvent = nullptr; vs::S.onYield = nullptr; vs::S.stickiness = (int)(seed%3)*35; vs::S.atomicLocks = false;
       TracedPool * pool = new TracedPool(seed%4); Mailbox * mb = new Mailbox;
-      std::vector<std::thread> ths; for (int t=0; t<nt; t++) {ths.emplace_back(Worker, pool, mb, seed*100+t, nops); vs::WaitRegistered(t+1);}
+      std::vector<std::thread> ths; for (int t=0; t<nt; t++) {ths.emplace_back(Worker, pool, mb, seed*100+t, nops, nt == 1); vs::WaitRegistered(t+1);}
       const bool ok = vs::RunAllRandom(nt);
       execs++; ysteps += vs::S.steps;
       if (!ok) {stranded++; Bad(std::string("STRANDED:")+vs::S.blockedDesc);}
